@@ -31,7 +31,8 @@ unsigned long nondet_ulong(void) { return (unsigned long) next('i').i; }
 bool nondet_bool(void) { return next('i').i & 1; }
 double verif_nondet_real(void) { In x = next('d'); if (x.k == 'i') { double d; uint64_t b = x.i; std::memcpy(&d, &b, 8); return d; } return x.d; }
 float verif_nondet_float(void) { In x = next('d'); if (x.k == 'i') { float d; uint32_t b = (uint32_t) x.i; std::memcpy(&d, &b, 4); return d; } return (float) x.d; }
-void __CPROVER_assume(bool c) { if (!c) { std::printf("VERIF-ASSUME-FALSE (model does not satisfy the harness precondition natively)\n"); std::fflush(stdout); std::_Exit(4); } }
+static int assumes_run = 0;
+void __CPROVER_assume(bool c) { ++assumes_run; if (!c) { std::printf("VERIF-ASSUME-FALSE (model does not satisfy the harness precondition natively; assumption #%d in execution order)\n", assumes_run); std::fflush(stdout); std::_Exit(4); } }
 void __VERIFIER_assert(bool c) { ++asserts_run; if (!c) { std::printf("VERIF-ASSERT-FAIL (assertion #%d in execution order)\n", asserts_run); std::fflush(stdout); std::_Exit(3); } }
 unsigned long verif_concretize(unsigned long n, unsigned long) { return n; }
 void verif_observe(long tag, long value) { std::printf("OBS %ld %ld\n", tag, value); }
